@@ -4,6 +4,7 @@ import (
 	"bytes"
 	"fmt"
 	"strconv"
+	"strings"
 	"time"
 )
 
@@ -322,4 +323,64 @@ func scString(sc NScenario) string {
 		}
 	}
 	return s
+}
+
+// monitorTA judges one trust-anchor-source execution without the model.
+func monitorTA(sc TScenario, o tOutcome) (vs []viol) {
+	add := func(id, f string, a ...any) {
+		vs = append(vs, viol{id, fmt.Sprintf(f, a...) + " [schedule " + sc.String() + "]"})
+	}
+	if o.Panic != "" {
+		add("trustanchors-panic", "panic in the real code: %s", o.Panic)
+	}
+	runCalled := false
+	cancelled := map[int]bool{}
+	written := map[string]bool{}
+	for _, op := range sc.Ops {
+		switch op.Op {
+		case "run":
+			runCalled = true
+		case "cancel":
+			cancelled[op.I] = true
+		case "file":
+			if op.V > 0 {
+				written[strconv.Itoa(op.V)] = true
+			}
+		}
+	}
+	up := false // the source became ready (some reader got a bundle) or Run ended
+	for _, r := range o.Rets {
+		if strings.HasPrefix(r, "b") {
+			up = true
+		}
+	}
+	if o.RunRet != "" {
+		up = true
+	}
+	for i, r := range o.Rets {
+		switch {
+		case r == "wret":
+		case strings.HasPrefix(r, "b"):
+			if !runCalled {
+				add("bundle-before-run", "call %d returned %s although Run was never called", i, r)
+			}
+			if !written[r[1:]] {
+				add("bundle-not-a-loaded-version", "call %d returned %s, which is not a version that was written", i, r)
+			}
+		case r == "closed":
+			if o.RunRet == "" {
+				add("closed-while-running", "call %d returned 'closed' but Run has not returned", i)
+			}
+		case r == "ctx":
+			if !cancelled[i] {
+				add("ctx-error-without-cancel", "call %d returned a ctx error but its ctx was never cancelled", i)
+			}
+		}
+	}
+	if up {
+		for _, i := range o.Pending {
+			add("bundle-source-deadlock", "call %d (%s) never returned although the source is up or Run has ended", i, o.Kinds[i])
+		}
+	}
+	return vs
 }
